@@ -31,12 +31,12 @@ def make_inputs(d, nrec):
 
 def cfg_for(d, c):
     cfg = make_inputs(os.path.join(d, f"in-{c['nrec']}"), c["nrec"])
-    cfg.update(cores=c["cores"], batch=c["batch"], cpu_count=c["cpu_count"])
+    cfg.update(cores=c["cores"], batch=c["batch"], cpu_count=c["cpu_count"], pipe_capacity=c.get("pipe"))
     return cfg
 
 
 def cfg_key(c):
-    return f"cores={c['cores']},batch={c['batch']},records={c['nrec']},cpu_count={c['cpu_count']}"
+    return f"cores={c['cores']},batch={c['batch']},records={c['nrec']},cpu_count={c['cpu_count']}" + (f",pipe_capacity={c['pipe']}" if c.get("pipe") else "")
 
 
 def configs(tier):
@@ -46,6 +46,9 @@ def configs(tier):
             for batch in (1, 2):
                 for nrec in (1, 2, 3, 4):
                     out.append({"cores": cores, "batch": batch, "nrec": nrec, "cpu_count": 16})
+        # a pipe that holds one message: a worker cannot finish until the parent reads (join before drain deadlocks)
+        for cores, batch, nrec in ((1, 2, 2), (1, 2, 3), (2, 1, 2), (2, 2, 3), (2, 2, 4)):
+            out.append({"cores": cores, "batch": batch, "nrec": nrec, "cpu_count": 16, "pipe": 1})
     else:
         for cpu in (16, 2, 1):
             for cores in (1, 2, 3):
@@ -53,6 +56,11 @@ def configs(tier):
                     for batch in (1, 2):
                         for nrec in (1, 2, 3, 4, 5, 6):
                             out.append({"cores": cores, "batch": batch, "nrec": nrec, "cpu_count": cpu})
+        for cap in (1, 2):
+            for cores in (1, 2, 3):
+                for batch in (1, 2):
+                    for nrec in (2, 4, 6):
+                        out.append({"cores": cores, "batch": batch, "nrec": nrec, "cpu_count": 16, "pipe": cap})
     return out
 
 
